@@ -71,6 +71,8 @@ fn emit_choice(
         } else {
             branch_nodes.extend(tokenize_inline_content(selected_text)?);
         }
+        // The start content is repeated in the output line, its tags included.
+        branch_nodes.extend(choice.start_tags.iter().cloned().map(Node::Tag));
         branch_nodes.extend(choice.selected_tags.iter().cloned().map(Node::Tag));
         if !body_already_emitted {
             // Skip the auto-newline for terminal diverts, and also for inline diverts that are
